@@ -1,9 +1,69 @@
-//! C22: not built yet.
+//! C22: check selection runs exactly the requested checks.
+//! One case = one generated input: reset{versions, baseline = all-checks run} + several selections.
+use crate::cli;
 use crate::out::Out;
-use serde_json::Value;
+use crate::pcodegen::Knobs;
+use crate::props::c21;
+use crate::rng::Rng;
+use serde_json::{json, Value};
 
-pub fn gen(_out: &mut Out, _sub: &str) {}
+fn knobs(rng: &mut Rng, lkm: bool) -> Knobs {
+    // trigger several syntactic checks at once
+    Knobs { n_funcs: 2 + rng.below(3) as usize, max_blocks: 6 + rng.below(6) as usize, must_call: c21::TRIGGERS.to_vec(), lkm }
+}
 
-pub fn replay(_run: &[Value], _sub: &str) -> Vec<Value> {
-    Vec::new()
+/// Re-execute one case from its reset event (which carries the inputs of every invocation).
+pub fn exec_case(reset: &Value) -> Vec<Value> {
+    let seed = reset["gen_seed"].as_u64().unwrap();
+    let kind = reset["kind"].as_str().unwrap().to_string();
+    let dir = reset["dir"].as_str().unwrap().to_string();
+    let id = reset["id"].as_str().unwrap().to_string();
+    let lkm = kind == "lkm";
+    let mut rng = Rng::new(seed);
+    let kn = knobs(&mut rng, lkm);
+    let (pj, bp) = cli::materialize(&dir, &id, &mut rng, &kn, &kind);
+    let all = if lkm { c21::LKM_MODULES.join(",") } else { cli::ALL_MODULES.join(",") };
+    let baseline = cli::invoke(&pj, &bp, lkm, Some(&all), 180);
+    let versions = cli::module_versions();
+    let mut evs = vec![json!({"ev": "reset", "gen_seed": seed, "kind": kind, "dir": dir, "id": id,
+        "selections": reset["selections"], "versions": versions["list"], "versions_exit": versions["exit"],
+        "versions_header": versions["header"], "baseline": baseline})];
+    for sel in reset["selections"].as_array().unwrap() {
+        let partial = if sel["has_partial"].as_bool().unwrap() { Some(sel["partial_raw"].as_str().unwrap().to_string()) } else { None };
+        evs.push(cli::invoke(&pj, &bp, lkm, partial.as_deref(), 180));
+    }
+    evs
+}
+
+pub fn replay(run: &[Value], _sub: &str) -> Vec<Value> {
+    match run.iter().find(|e| e["ev"] == "reset") {
+        Some(r) => exec_case(r),
+        None => Vec::new(),
+    }
+}
+
+pub fn gen(out: &mut Out, _sub: &str) {
+    let mut rng = Rng::new(out.seed ^ 0xC22);
+    let n = out.size(16, 400);
+    let nsel = out.size(7, 16);
+    let dir = std::env::var("VERIF_SCRATCH").unwrap_or_else(|_| "/verif/.build/cli_inputs".to_string());
+    let mut inputs = Vec::new();
+    for i in 0..n {
+        let kind = match rng.below(5) { 0 => "lkm", 1 => "rel", _ => "exec" };
+        let mut sels = Vec::new();
+        for k in 0..nsel {
+            let kk = if k == 0 { 0 } else if k < 3 { 2 } else { 3 };
+            let sel = c21::selection(&mut rng, kk, kind == "lkm");
+            sels.push(json!({"has_partial": sel.is_some(), "partial_raw": sel.unwrap_or_default()}));
+        }
+        inputs.push(json!({"ev": "reset", "gen_seed": rng.next(), "kind": kind, "dir": dir, "id": format!("c22_{}", i), "selections": sels}));
+    }
+    let cases = crate::par::map(inputs, 8, |inp| exec_case(&inp));
+    for evs in cases {
+        let nt = evs[0]["baseline"]["warnings"].as_array().map(|a| {
+            let names: std::collections::HashSet<&str> = a.iter().map(|w| w["name"].as_str().unwrap()).collect();
+            names.len() >= 3
+        }).unwrap_or(false);
+        out.emit(evs, nt);
+    }
 }
